@@ -99,7 +99,8 @@ def c01(tier):
     us.append(twin(us[-2]))
     sp = U("split", "split", "split", dict(maxlen=4 if tier == "quick" else 6), timeout=60 if tier == "quick" else 600)
     st = stmt_units(tier)
-    return us + [sp, twin(sp)] + st + [twin(st[0]), twin(st[-1])]
+    tb = [u for u in termbmc_units(tier, alphs=("iri",)) if u["params"]["integ"] == "generic" and u["params"].get("sizes") in ([2, 1, 2], [2, 3, 1])]
+    return us + [sp, twin(sp)] + st + tb + [twin(st[0]), twin(st[-1])]
 
 
 RDF_FUNCS = ["pyjelly/integrations/rdflib/serialize.py:*", "pyjelly/integrations/rdflib/parse.py:*", "pyjelly/serialize/streams.py:*", "pyjelly/serialize/encode.py:*", "pyjelly/parse/decode.py:*"]
@@ -139,7 +140,8 @@ def c03(tier):
             nsu.append(U(f"nsver:{integ}:v{ev}", "ns", "ns", dict(integ=integ, phys=1, names=8, prefixes=8, datatypes=8, nb=1, fixl=1,
                          entry="stream_frames_sink" if integ == "generic" else "graph_serialize", pentry="flat", reser=False, setcmp=(integ == "rdflib"),
                          explicit_version=ev), timeout=600))
-    return us + r + sp + tb + nsu + [twin(us[0]), twin(r[0]), twin(sp[0])]
+    gs = [U(f"ref-grouped_ser:{integ}:p3", "reframe", "grouped_ser", dict(integ=integ, phys=3), timeout=600) for integ in ("generic", "rdflib")]
+    return us + r + sp + tb + nsu + gs + [twin(us[0]), twin(r[0]), twin(sp[0])]
 
 
 @prop("C19", functions=PIPE_FUNCS + TAB_FUNCS,
@@ -208,6 +210,7 @@ def c11(tier):
     for integ in ("generic", "rdflib"):
         for phys in (1, 2):
             us.append(U(f"pull:{integ}:p{phys}:K{K}", "flow", "pull", dict(integ=integ, phys=phys, K=K), timeout=300))
+            us.append(U(f"pull:{integ}:p{phys}:K{K}:via_flow", "flow", "pull", dict(integ=integ, phys=phys, K=K, via_flow=True), timeout=300))
     for integ in ("generic", "rdflib"):
         us.append(U(f"pull_graph:{integ}", "flow", "pull_graph", dict(integ=integ), timeout=300))
     Ks = 3 if tier == "quick" else 4
@@ -338,6 +341,9 @@ def c13(tier):
                 us.append(U(f"hdr:names:{integ}:p{phys}", "opts", "hdr", dict(integ=integ, phys=phys, lt=1 if phys == 1 else 2, name=-1, sizes=False), timeout=300))
         for nmi in range(5 if tier != "quick" else 1):
             us.append(U(f"hdr:sizes:{integ}:p1:n{nmi}", "opts", "hdr", dict(integ=integ, phys=1, lt=1, name=nmi, sizes=True), timeout=600))
+    for integ in ("generic", "rdflib"):
+        us.append(U(f"hdr_big:{integ}", "opts", "hdr_big", dict(integ=integ, phys=1), timeout=300))
+        us.append(U(f"hdr_reuse:{integ}", "opts", "hdr_reuse", dict(integ=integ), timeout=600))
     us.append(U("matrix", "opts", "matrix", {}, timeout=120))
     us.append(U("names_min", "opts", "names_min", {}, timeout=120))
     for acc in (0, 1, 8, 4095, 4096):
@@ -663,7 +669,7 @@ def termbmc_units(tier, alphs=("dt", "iri")):
     for integ in ("generic", "rdflib"):
         for alph in alphs:
             nal = 4 if alph == "dt" else 6
-            cfgs = [([8, 2, 2], False), ([8, 2, 2], True)] if alph == "dt" else [([2, 2, 2], False), ([3, 0, 2], False), ([2, 1, 2], False)]
+            cfgs = [([8, 2, 2], False), ([8, 2, 2], True)] if alph == "dt" else [([2, 2, 2], False), ([3, 0, 2], False), ([2, 1, 2], False), ([2, 3, 1], False)]
             if integ == "rdflib":
                 cfgs = cfgs[:1] if tier == "quick" else [c for c in cfgs if not c[1]]
             for sizes, two in cfgs:
@@ -671,4 +677,11 @@ def termbmc_units(tier, alphs=("dt", "iri")):
                     fx = [f] if tier == "quick" else [f]
                     out.append(U(f"termbmc:{integ}:{alph}:t{'-'.join(map(str, sizes))}:two{int(two)}:f{f}", "termbmc", "termbmc",
                                  dict(integ=integ, alph=alph, K=K, sizes=sizes, two=two, fixed=fx), timeout=900 if tier == "quick" else 3600))
+    # three table-using terms per statement: fill-to-evict transition INSIDE one statement (names table of 3 and 2)
+    for integ in ("generic", "rdflib"):
+        for n in (3, 2):
+            firsts = [[0, 0, 1], [0, 1, 1], [0, 1, 2]] if tier == "quick" else [[a, b, c] for a in range(2) for b in range(3) for c in range(4)]
+            for fi in firsts:
+                out.append(U(f"termbmc3:{integ}:n{n}:first{''.join(map(str, fi))}", "termbmc", "termbmc",
+                             dict(integ=integ, alph="names", K=6, sizes=[n, 2, 2], three=True, first=fi), timeout=900))
     return out
